@@ -538,3 +538,56 @@ func onlyFormatted(v ssa.Value, depth int) bool {
 	}
 	return true
 }
+
+// checkActionErrors: a value action fails only because a decoding routine of a library failed on the text it was given
+// (strconv.Unquote, pointerstructure.Parse). The generated parser keeps the errors its actions return even when the
+// alternative that ran the action is abandoned afterwards, so an action that refuses something *of its own accord*
+// makes every expression fail in which that something is merely tried first — `"" in X` is tried as a selector before it
+// is read as a value.
+func checkActionErrors(r *Run, prog *Program, pfx string) {
+	n := 0
+	for _, fn := range prog.ModuleFuncs() {
+		if fn.Pkg != prog.GrammarSSA || !prog.isActionFunc(fn) || fn.Signature.Recv() == nil || !namedIs(fn.Signature.Recv().Type(), grammarPath, "current") {
+			continue
+		}
+		res := fn.Signature.Results()
+		if res.Len() != 2 || isBool(res.At(0).Type()) {
+			continue // predicates (`&{…}` / `!{…}` code) answer (bool, error): the error productions are made of them
+		}
+		n++
+		ps := NewPathSim(prog)
+		ps.maxVisits = 2
+		for _, sm := range ps.Run(fn) {
+			if sm.Ret == nil || len(sm.Results) != 2 {
+				continue
+			}
+			e := sm.Results[1]
+			if errClass(sm, e) == "nil" {
+				continue
+			}
+			justified := false
+			for _, ev := range sm.Events() {
+				if ev.Instr == nil || ev.Callee == nil || prog.InModule(ev.Callee) || ev.Res == nil {
+					continue
+				}
+				rs := ev.Callee.Signature.Results()
+				if rs.Len() == 0 || !isErrorType(rs.At(rs.Len()-1).Type()) || isErrorCtor(ev.Callee) {
+					continue
+				}
+				var le *Sym = ev.Res
+				if rs.Len() > 1 {
+					le = &Sym{K: sRes, A: ev.Res, Idx: rs.Len() - 1}
+				}
+				if eq, known := evalEq(sm.St, le, nilSym()); known && !eq {
+					justified = true
+				}
+				if le.Key() == e.Key() {
+					justified = true // the library's own verdict, handed on as it is
+				}
+			}
+			r.Check(pfx+".action-errors", fn.Name(), prog.pos(sm.Ret.Pos()), justified,
+				"action "+fn.Name()+" returns an error of its own making ("+shortKey(e)+"): the parser keeps it even if this alternative is abandoned, so every expression in which the construct is only tried first is rejected [path "+strings.Join(sm.St.trail, " ")+"]")
+		}
+	}
+	r.Check(pfx+".action-errors", "census", "grammar/grammar.go", n >= 20, fmt.Sprintf("info: %d value actions examined", n))
+}
